@@ -474,6 +474,88 @@ def recipe_histories(chk, only=None):
             chk.violation(sig, v, {"recipe_history": h})
             if locals().get("hung"):
                 break              # the cached pool is wedged: nothing after this would be judged fairly
+    if only is None and not locals().get("hung"):
+        cwd_history(chk)
+
+
+def cwd_history(chk):
+    """PoolEnv.tla with chef's GENUINE cached pathos pool: parallel cooks of plotfiles typed under ONE relative name (input and
+    output) from different working directories in one process.  Every cook must write, under ITS directory's output name, the
+    recipe evaluated on ITS directory's plotfile, and leave the other directories' outputs as they are."""
+    from amr_kitchen.chef import Chef
+    import signal
+    base = chk.tmp()
+    os.makedirs(base)
+    rfile = os.path.join(base, "recipe.py")
+    open(rfile, "w").write(RECIPE_TEXT["A"])
+    rng = random.Random(chk.seed + 23)
+    regs, aps = {}, {}
+    names = ["run_a", "run_b", "run_c"]
+    for i, dn in enumerate(names):
+        cfg_ = gamma.Config.draw(random.Random(chk.seed + 23), ndims=3, payload="tame")
+        cfg_.seed = chk.seed + 1000 * (i + 1)
+        aps[dn] = gamma.make_ap("A", ["p", "q", "r"], [[1, 2, 1], [2, 1]],
+                                [{"file": [1, 2, 1], "disk": {"1": [3, 1], "2": [2]}}, {"file": [1, 2], "disk": {"1": [1], "2": [2]}}], ndims=3)
+        os.makedirs(os.path.join(base, dn))
+        regs[dn] = gamma.write_plotfile(os.path.join(base, dn, "plt00100"), aps[dn], cfg_)
+    order = ["run_a", "run_b", "run_a", "run_c"]
+    old_cwd = os.getcwd()
+    v = None
+    digests = {}
+    try:
+        for k, dn in enumerate(order):
+            os.chdir(os.path.join(base, dn))
+            out = "cooked_%d" % k
+
+            def _late(signum, frame):
+                raise TimeoutError("the cook did not come back within 90 s")
+            old_h = signal.signal(signal.SIGALRM, _late)
+            signal.alarm(90)
+            try:
+                with core.quiet():
+                    Chef("plt00100", recipe=rfile, outfile=out, serial=False).cook()
+            except Exception as e:
+                v = "cook %d (parallel, ./plt00100 -> ./%s in directory %s) raised %s: %s" % (k + 1, out, dn, type(e).__name__, str(e)[:150])
+                break
+            finally:
+                signal.alarm(0)
+                signal.signal(signal.SIGALRM, old_h)
+            outp = os.path.join(base, dn, out)
+            A = alpha.abstract(outp)
+            wf = alpha.wellformed(A)
+            if wf or "new1" not in A["hdr"]["fields"]:
+                v = "cook %d (parallel, ./plt00100 -> ./%s in directory %s, after cooks in %r): the output is not a well-formed plotfile with the field new1: %s" % (
+                    k + 1, out, dn, order[:k], "; ".join(wf[:2]))
+                break
+            j = A["hdr"]["fields"].index("new1")
+            ap, reg = aps[dn], regs[dn]
+            for l, C in enumerate(A["lev"]):
+                for bi, (idx, (fn, off)) in enumerate(zip(C["idx"], C["fod"])):
+                    b = [bx for bx, box in enumerate(ap["levels"][l]["boxes"]) if [box["lo"], box["hi"]] == idx][0]
+                    want = reg.array_of(("A", l, b + 1, 1)) * 2.0 + reg.array_of(("A", l, b + 1, 2))
+                    got = alpha.read_fab_at(os.path.join(outp, C["dir"], fn), off)["arrays"][j]
+                    if not np.array_equal(got, want):
+                        v = "cook %d (parallel, ./plt00100 in directory %s, after cooks in %r): the new field of level %d box %d is not the recipe evaluated on THIS directory's plotfile" % (
+                            k + 1, dn, order[:k], l, bi)
+                        break
+                if v:
+                    break
+            if v:
+                break
+            for (d0, o0), dg in digests.items():
+                if alpha.tree_digest(os.path.join(base, d0, o0)) != dg:
+                    v = "cook %d (in directory %s) changed the output %s/%s of an earlier cook" % (k + 1, dn, d0, o0)
+                    break
+            if v:
+                break
+            digests[(dn, out)] = alpha.tree_digest(outp)
+    finally:
+        os.chdir(old_cwd)
+    sig = util.sig_str("chef-cwd-history", order)
+    chk.executed(sig, True, sample={"order": order})
+    chk.traces += 1
+    if v:
+        chk.violation(sig, v, {"chef_cwd_history": True}, klass="chef-cwd-history")
 
 
 def selection_phase(chk, scenarios):
@@ -540,6 +622,8 @@ def _run(chk, replay):
                 "trivial = (1 level, no kept field, one file mono, fifo, user recipe u1)")
     chk.assumptions = ["cantera evaluated cell by cell through a scalar Solution is the reference for built-in recipes (rtol 1e-9)",
                        "generated thermochemical states are physical (400-2400 K, positive normalised Y): the code's cleaning of zero states never triggers"]
+    if replay and replay["scenario"].get("chef_cwd_history"):
+        return cwd_history(chk)
     if replay and replay["scenario"].get("recipe_history"):
         chk.executed("replay")
         return recipe_histories(chk, only=replay["scenario"]["recipe_history"])
